@@ -119,6 +119,19 @@ class Power(Contract):
         if isinstance(a, Poly) and getattr(a, "indeterminants_of", None) is not None and isinstance(b, MonoRow):
             ex.oblige(f"pre({ex.site('power')}).one_exponent_per_indeterminate", b.D == a.indeterminants_of.D, "precondition", node)
             return IndetPower(a.indeterminants_of, b)
+        e = b if isinstance(b, int) and not isinstance(b, bool) else (b if isinstance(b, z3.ArithRef) and b.is_int() else getattr(b, "int_valued", None))
+        if isinstance(a, Poly) and e is not None and not kw:
+            # scalar non-negative integer exponent (proved from the source: contracts/multiply.py PowerScalar): element-wise power
+            from contracts.multiply import ppow
+            ctx = ex.ctx
+            ex.oblige(f"pre({ex.site('power')}).exponent_not_negative", e >= 0 if not isinstance(e, int) else z3.BoolVal(e >= 0), "precondition", node)
+            r = Poly(ctx, ctx.fresh("power"), shape=a.shape, region=Region("fresh", "power"))
+            r.owndata = z3.BoolVal(True)
+            ctx.assume(r.wf(ctx))
+            ctx.assume(ctx.forall_range(0, r.N, lambda t: keyok(r.row(t), r.D)))
+            ctx.assume(ctx.forall_idx(lambda i: r.val(i) == ppow(a.val(i), e), a.shape))
+            r.power_of = (a, e)
+            return r
         raise U("power in this form", node)
 
 
